@@ -670,7 +670,9 @@ class Series:
     def values(self):
         return self.to_numpy()
 
-    def to_numpy(self):
+    def to_numpy(self, dtype=None, copy=False):
+        if dtype is not None:
+            return self.to_numpy().astype(dtype)
         vals = [np._unbox(v) for v in self.vals]
         if not vals:
             return ndarray.fresh([], (0,), "O")
